@@ -32,6 +32,8 @@ pub fn line_menu() -> Vec<&'static str> {
         "80 READ A",
         "90 INPUT B",
         "100 IF X THEN 10 ELSE 20",
+        "100 IF X THEN PRINT 1 ELSE PRINT 2 ELSE PRINT 3",
+        "100 IF X THEN ELSE ELSE",
         "110 DIM A(3)",
         "PRINT 1",
         "",
@@ -104,6 +106,28 @@ pub fn check_file(text: &str) -> Option<(String, String)> {
                     if !same {
                         return Some(("error blamed on a line that does not have it".to_string(), format!("{} reported on file line {} ({:?}), which analysed alone has no such error", kind, l, src)));
                     }
+                }
+            }
+        }
+        // the lines the analyzer hands out (front ends print them under a caret, slice them by the
+        // ranges) are the ones its ranges refer to
+        let own = a.source_file_lines();
+        if own.len() != lines.len() {
+            return Some(("analyzer's own line list has another length".to_string(), format!("{} lines handed out for a file of {} lines", own.len(), lines.len())));
+        }
+        for m in a.messages() {
+            if let Some((line, range)) = a.source_file_map().map_to_source(m) {
+                let src = &own[line];
+                if range.end > src.len() || !src.is_char_boundary(range.start) || !src.is_char_boundary(range.end) {
+                    return Some(("diagnostic range does not fit the line the analyzer hands out".to_string(), format!("range {:?} on the analyzer's line {} = {:?}", range, line, src)));
+                }
+            }
+        }
+        for (i, toks) in a.token_types().iter().enumerate() {
+            for (k, (_, r)) in toks.iter().enumerate() {
+                let src = &own[i];
+                if r.end > src.len() || !src.is_char_boundary(r.start) || !src.is_char_boundary(r.end) {
+                    return Some(("token range does not fit the line the analyzer hands out".to_string(), format!("token {} range {:?} on the analyzer's line {} = {:?}", k, r, i, src)));
                 }
             }
         }
